@@ -651,6 +651,10 @@ func (ed Editor) InsertTwoColumnsOpts(pos int, leftText string, rightText string
 	if leftColWidth < minLeftColWidth {
 		leftColWidth = minLeftColWidth
 	}
+	if leftColWidth > (width-minSpaceBetween)-minRightColWidth {
+		// a high leftColPercent must still leave room for the right column
+		leftColWidth = (width - minSpaceBetween) - minRightColWidth
+	}
 
 	// difference instead of /2 here in case leftColWidth had int truncation
 	// happen during its calculation.
